@@ -20,8 +20,8 @@ i) flow accounting cannot kill a stream: in FlowMetrics no *unsigned* atomic cou
 f) run_worker_loop awaits on_store inline (no spawn) before the next recv.
 Not decided: the window between publication and release of the passive copy (cross-task atomicity), aggregates not being de-duplicated.
 """
-FLOOR = 15
-REQUIRED = ["C03.a", "C03.b1", "C03.b2", "C03.b3", "C03.c", "C03.d", "C03.e1", "C03.e2", "C03.f", "C03.g", "C03.h", "C03.i", "C03.j", "C03.k"]
+FLOOR = 16
+REQUIRED = ["C03.a", "C03.b1", "C03.b2", "C03.b3", "C03.c", "C03.d", "C03.e1", "C03.e2", "C03.f", "C03.g", "C03.h", "C03.i", "C03.j", "C03.k", "C03.l"]
 FLUSH_TASK = "engine::core::write::flush_worker::FlushWorker::run::{closure#0}::{closure#0}"
 
 
@@ -200,6 +200,24 @@ def run(ctx):
         one(ex, r"FlowBuilders::segment_flow$")
         return bad
     ctx.run("C03.d", "K4 REACH", "engine::query::streaming::scan", "a read consults active memtable, passive buffers and published segments", d)
+
+    def l_(inst):
+        """C03.d shows that a scan CAN reach the memtable, the passive buffers and the segments. A read sees every applied write only if
+        it DOES: in StreamingScan::execute both source flows are requested on every path that goes on to merge - in particular a shard
+        the coordinator's top-k plan gave no zones still holds unflushed rows (the plan only knows on-disk zones)."""
+        b = F.fn("StreamingScan::execute")
+        mf = one(b, r"FlowBuilders::memtable_flow$")
+        sf = one(b, r"FlowBuilders::segment_flow$")
+        mgs = calls(b, r"ShardFlowMerger::merge$", 1)
+        inst.sites = [sp(b, mf.bb), sp(b, sf.bb)] + [sp(b, mg.bb) for mg in mgs]
+        bad = []
+        for c, nm in ((mf, "memtable (active + passive buffers)"), (sf, "segment")):
+            for mg in mgs:
+                if mg.bb in set(b.reach(0, cut_blocks=[c.bb])):
+                    bad.append(("scan-skips-source:%s" % nm.split(" ")[0], "StreamingScan::execute can merge and answer without having requested the %s flow: rows that live only there are missing from the shard's answer" % nm, sp(b, mg.bb)))
+                    break
+        return bad
+    ctx.run("C03.l", "K1 DOM", "StreamingScan::execute", "a shard's answer is always built from the memtable flow and the segment flow", l_)
 
     def writer(name):
         def f(inst):
